@@ -16,7 +16,7 @@ from .. import alphabet as A
 from .. import core, mj
 from ..mjutil import quat2mat, quat_mul
 from . import _c15_ref as R
-from ._c13_ref import K_EPAW, K_GJK0
+from ._c13_ref import K_EPADEG, K_EPAW, K_GJK0
 from ._c16_ref import hull_faces
 
 LEVEL = "exploration"
@@ -150,8 +150,6 @@ class DPart(core.Part):
 K_MULTI = ("mjc_ccd multicontact (box/mesh pairs, margin 0): when the closest features are aligned within mjFACE_TOL/mjEDGE_TOL (~5 deg) "
            "the manifold takes a face normal of one geom and per-vertex depths, so the deepest contact dist / normal deviate from the "
            "true penetration depth and its direction")
-K_EPADEG = ("mjc_ccd/EPA: exactly symmetric configurations produce a degenerate initial polytope and a penetration depth that is far "
-            "too small (a 1e-7 perturbation of the pose gives the right depth)")
 
 
 def face_snapped(g0, g1, nrm, nref):
@@ -402,12 +400,17 @@ def run(ctx):
         pairs, sis, t1, rots = all_pairs(), (0, 1), [0, 1], list(range(10))
     else:
         pairs, sis, t1, rots = QUICK_PAIRS, (0,), [0], list(range(5))
+    SHm = shapes()
     for pr in pairs:
+        both_mesh = SHm[pr[0]][0] == M and SHm[pr[1]][0] == M
         for si in sis:
+            if si and both_mesh:
+                continue        # meshes have no size variants
             orders = (0, 1) if (ctx.thorough or pr[0] == pr[1]) else (0,)
             for order in orders:
+                tt = t1 if order == 0 else t1[-1:]
                 for r in rots:
-                    items.append((pr, si, order, t1, [r]))
+                    items.append((pr, si, order, tt, [r]))
     core.pmap(ctx, _chunk, items, nchunks=min(len(items), 160))
     ctx.extra["models"] = len(items)
     ctx.rule = ("pairs %s x %d size set(s) x file order(s) x first-geom placement %s x rotations %s x 5x5x5 relative positions "
